@@ -99,6 +99,11 @@ pub struct Case {
     /// transaction the caller supplied
     #[serde(default)]
     pub permissive: bool,
+    /// API group, commitment 1: the peer announces one of OUR per-commitment points (holder
+    /// commitment 0's, which it knows) as the point of its commitment, right after the signer
+    /// worked with that point on the holder side (validation of holder commitment 0)
+    #[serde(default)]
+    pub peer_reuses_holder_point: bool,
 }
 
 fn hsel_strat() -> impl Strategy<Value = HSel> {
@@ -419,9 +424,10 @@ impl Prop for C04 {
         (
             (any::<bool>(), any::<bool>(), delay.clone(), delay, 0u8..4, any::<u8>(), prop_oneof![Just(0u16), Just(1u16), Just(65535u16), any::<u16>()]),
             (0u8..3, 0u8..3, 0u8..3, proptest::collection::vec(hsel_strat(), 0..5)),
-            (prop::bool::weighted(0.1), prop::bool::weighted(0.3), mutation_strat(), prop_oneof![12 => Just(None), 1 => Just(Some(0u8)), 1 => Just(Some(1u8))], prop::bool::weighted(0.15), prop::bool::weighted(0.35), prop::bool::weighted(0.2)),
+            (prop::bool::weighted(0.1), prop::bool::weighted(0.3), mutation_strat(), prop_oneof![12 => Just(None), 1 => Just(Some(0u8)), 1 => Just(Some(1u8))], prop::bool::weighted(0.15), prop::bool::weighted(0.35), prop::bool::weighted(0.2), prop::bool::weighted(0.2)),
         )
-            .prop_map(|((anchors, outbound, holder_delay, cp_delay, peer, dbid, vout), (value_sel, fee, to_cp, htlcs), (retry0, phase2, mutation, wire, perm_restart, onchain, permissive))| Case {
+            .prop_map(|((anchors, outbound, holder_delay, cp_delay, peer, dbid, vout), (value_sel, fee, to_cp, htlcs), (retry0, phase2, mutation, wire, perm_restart, onchain, permissive, reuse))| Case {
+                peer_reuses_holder_point: reuse && !retry0 && wire.is_none(),
                 permissive: permissive && !phase2 && wire.is_none(),
                 onchain: onchain && wire.is_none(),
                 anchors, outbound, holder_delay, cp_delay, peer, dbid, vout, value_sel, fee, to_cp, htlcs, retry0, phase2, mutation, wire, perm_restart,
@@ -526,7 +532,14 @@ impl Prop for C04 {
             }
             (1u64, finish_content(case.anchors, value, FEERATES[case.fee as usize % 3], to_cp, o, r))
         };
-        let point = chan.cp.point(secp, n);
+        let point = if case.peer_reuses_holder_point && !case.retry0 {
+            let signed = chan.cp_sign_holder(secp, 0, &c0, SigKind::Valid);
+            let r = w.with_chan(ci, |ch| ch.validate_holder_commitment_tx_phase2(0, c0.feerate, c0.to_holder, c0.to_cp, vec![], vec![], &signed.commit_sig, &signed.htlc_sigs).map(|_| ()));
+            st.class(format!("peer_reuses_holder_point:validate-holder-0:{}", r.tag()));
+            chan.holder_point(secp, 0)
+        } else {
+            chan.cp.point(secp, n)
+        };
         let reftx = chan.ref_cp_commitment(secp, n, &point, &content);
         let canonical = reftx.trust().built_transaction().transaction.clone();
         let canon_ws = witscripts(chan, secp, &reftx, false);
